@@ -36,6 +36,8 @@ _bound = st.one_of(
     st.tuples(st.just("abs"), st.integers(0, 10 ** 7), st.just(0)),
     st.tuples(st.just("zero"), st.just(0), st.just(0)),
     st.tuples(st.just("far"), st.integers(1, 10 ** 6), st.just(0)),
+    # exactly on an anchor's tick / time (anchors are literal times that pin nothing in the tempo map)
+    st.tuples(st.just("anchor"), st.integers(0, 5), st.sampled_from([0, 0, 1])),
 )
 _call = st.builds(
     lambda form, a, b, trk, same, rev: {"form": form, "a": list(a), "b": list(b), "track": trk,
@@ -58,12 +60,20 @@ def strat_cases(ctx: Ctx):
         lambda c, calls: {"spec": c["spec"], "max_tick": c["max_tick"], "calls": calls},
         st.integers(0, 5).flatmap(lambda mn: G.chart_specs(
             max_segments=ctx.pick(6, 16), max_tracks=2, min_tracks=1, max_notes=25, max_events=1,
-            max_ts=1, max_anchors=0, min_notes=min(mn, 3), long_one_in=4)).flatmap(_maybe_unsorted),
+            max_ts=1, max_anchors=3, min_notes=min(mn, 3), long_one_in=4)).flatmap(_maybe_unsorted),
         st.lists(_call, min_size=8, max_size=14))
 
 
-def _resolve(bound, notes, bpm, as_tick: bool, max_tick: int):
+def _resolve(bound, notes, bpm, as_tick: bool, max_tick: int, anchors=()):
     kind, v, delta = bound
+    if kind == "anchor":
+        if not anchors:
+            kind = "zero"
+        else:
+            a = anchors[v % len(anchors)]
+            if as_tick:
+                return max(0, min(a.tick + delta, max_tick))
+            return max(a.timestamp + timedelta(microseconds=delta), timedelta(0))
     if kind == "zero" or (kind in ("note", "end") and not notes):
         return 0 if as_tick else timedelta(0)
     if kind == "abs":
@@ -122,8 +132,9 @@ def check_case(ctx: Ctx, case) -> None:
                 continue
         form = call["form"]
         as_tick = form.startswith("tick")
-        a = _resolve(call["a"], notes, bpm, as_tick, case["max_tick"])
-        b = _resolve(call["b"], notes, bpm, as_tick, case["max_tick"])
+        anchors = list(chart.sync_track.anchor_events)
+        a = _resolve(call["a"], notes, bpm, as_tick, case["max_tick"], anchors)
+        b = _resolve(call["b"], notes, bpm, as_tick, case["max_tick"], anchors)
         if call["same"]:
             b = a
         if not call["reverse"] and form in ("tick_tick", "time_time") and b < a:
